@@ -242,6 +242,183 @@ def filestat_contracts():
     return L
 
 
+# ---------------------------------------------------------------------------------------------------------------------
+# the internal codec (internal/encoding/ssh/filexfer): same layout table, its own struct / field names
+SSHFX = [
+    # (struct, type byte, fields)   -- the request id is the reqid parameter, not a field
+    ("ClosePacket",    4,  [("str", "Handle")]),
+    ("ReadPacket",     5,  [("str", "Handle"), ("u64", "Offset"), ("u32", "Length")]),
+    ("LStatPacket",    7,  [("str", "Path")]),
+    ("FStatPacket",    8,  [("str", "Handle")]),
+    ("OpenDirPacket",  11, [("str", "Path")]),
+    ("ReadDirPacket",  12, [("str", "Handle")]),
+    ("RemovePacket",   13, [("str", "Path")]),
+    ("RmdirPacket",    15, [("str", "Path")]),
+    ("RealPathPacket", 16, [("str", "Path")]),
+    ("StatPacket",     17, [("str", "Path")]),
+    ("RenamePacket",   18, [("str", "OldPath"), ("str", "NewPath")]),
+    ("ReadLinkPacket", 19, [("str", "Path")]),
+    ("SymlinkPacket",  20, [("str", "TargetPath"), ("str", "LinkPath")]),
+    ("StatusPacket",   101, [("u32", "uint32(p.StatusCode)"), ("str", "ErrorMessage"), ("str", "LanguageTag")]),
+    ("HandlePacket",   102, [("str", "Handle")]),
+]
+
+SSHFX_HEAD = r'''//go:build verif
+
+package sshfx
+
+// Code generated by /verif/tools/gen_c06_contracts.py; DO NOT EDIT.
+// C06 contracts of the internal codec: Buffer primitives at byte level, the length prefix written by Buffer.Packet,
+// the minimum-length rule of readPacket, and the layout of the fixed-shape packets against the same table as the wire
+// codec (verif_contracts_c06.go in the package root) -- two encoders meeting one layout produce identical bytes.
+
+//@ ghost var frameLen uint32
+//@ ghost var rdErr bool
+
+//@ extend func readPacket
+//@   property C06
+//@   update before call io.ReadFull#1: ghost.rdErr = false
+//@   update after call io.ReadFull#1: ghost.rdErr = ret1 != nil
+//@   update after call unmarshalUint32#1: ghost.frameLen = ret
+//@   update after call io.ReadFull#2: ghost.rdErr = ret1 != nil
+//@   ensures !ghost.rdErr && err == ErrShortPacket ==> ghost.frameLen < 5
+//@   ensures !ghost.rdErr && err == ErrLongPacket ==> ghost.frameLen > maxPacketLength
+//@   ensures !ghost.rdErr && err == nil ==> len(pkt) == int(ghost.frameLen)
+// (a frame is refused as short only below the 5-byte minimum -- type and request id -- and as long only above the limit;
+//  every other frame is delivered with exactly the announced number of bytes)
+
+//@ extend func (*Buffer).ConsumeByteSliceCopy
+//@   property C06
+//@   ensures old(b.Err) == nil && b.Err == nil ==> len(old(b.b)) - old(b.off) >= 4 && len(result) == int(old(be32(b.b, b.off))) && b.off == old(b.off) + 4 + len(result)
+// (the copy has the length announced on the wire, whatever the length and capacity of the hint)
+
+//@ extend func (encoding/binary.bigEndian).PutUint32
+//@   ensures be32(b, 0) == v
+//@   content-ensures forall(i, 4 <= i && i < len(b) ==> b[i] == old(b[i]))
+
+//@ func (*Buffer).AppendUint8
+//@   property C06
+//@   content
+//@   requires b != nil
+//@   ensures len(b.b) == old(len(b.b)) + 1 && b.b[old(len(b.b))] == v && b.off == old(b.off) && b.Err == old(b.Err)
+//@   ensures samearray(b.b, old(b.b)) || fresh(b.b)
+//@   content-ensures forall(i, 0 <= i && i < old(len(b.b)) ==> b.b[i] == old(b.b[i]))
+//@   modifies *b, bytesof b.b
+
+//@ func (*Buffer).AppendUint32
+//@   property C06
+//@   content
+//@   requires b != nil
+//@   ensures len(b.b) == old(len(b.b)) + 4 && be32(b.b, old(len(b.b))) == v && b.off == old(b.off) && b.Err == old(b.Err)
+//@   ensures samearray(b.b, old(b.b)) || fresh(b.b)
+//@   content-ensures forall(i, 0 <= i && i < old(len(b.b)) ==> b.b[i] == old(b.b[i]))
+//@   modifies *b, bytesof b.b
+
+//@ func (*Buffer).AppendUint64
+//@   property C06
+//@   content
+//@   requires b != nil
+//@   ensures len(b.b) == old(len(b.b)) + 8 && be64(b.b, old(len(b.b))) == v && b.off == old(b.off) && b.Err == old(b.Err)
+//@   ensures samearray(b.b, old(b.b)) || fresh(b.b)
+//@   content-ensures forall(i, 0 <= i && i < old(len(b.b)) ==> b.b[i] == old(b.b[i]))
+//@   modifies *b, bytesof b.b
+
+//@ func (*Buffer).AppendByteSlice
+//@   property C06
+//@   content
+//@   requires b != nil && !samearray(v, b.b)
+//@   ensures len(b.b) == old(len(b.b)) + 4 + len(v) && be32(b.b, old(len(b.b))) == uint32(len(v)) && b.off == old(b.off) && b.Err == old(b.Err)
+//@   ensures samearray(b.b, old(b.b)) || fresh(b.b)
+//@   content-ensures forall(j, 0 <= j && j < len(v) ==> b.b[old(len(b.b)) + 4 + j] == old(v[j]))
+//@   content-ensures forall(i, 0 <= i && i < old(len(b.b)) ==> b.b[i] == old(b.b[i]))
+//@   modifies *b, bytesof b.b
+
+//@ func (*Buffer).AppendString
+//@   property C06
+//@   content
+//@   requires b != nil
+//@   ensures len(b.b) == old(len(b.b)) + 4 + len(v) && be32(b.b, old(len(b.b))) == uint32(len(v)) && b.off == old(b.off) && b.Err == old(b.Err)
+//@   ensures samearray(b.b, old(b.b)) || fresh(b.b)
+//@   content-ensures forall(j, 0 <= j && j < len(v) ==> b.b[old(len(b.b)) + 4 + j] == v[j])
+//@   content-ensures forall(i, 0 <= i && i < old(len(b.b)) ==> b.b[i] == old(b.b[i]))
+//@   modifies *b, bytesof b.b
+
+//@ func (*Buffer).StartPacket
+//@   property C06
+//@   content
+//@   requires b != nil
+//@   ensures len(b.b) == 9 && b.b[4] == uint8(packetType) && be32(b.b, 5) == requestID && b.off == 0 && b.Err == nil
+//@   ensures samearray(b.b, old(b.b)) || fresh(b.b)
+//@   modifies *b, bytesof b.b
+
+//@ func (*Buffer).PutLength
+//@   property C06
+//@   content
+//@   requires b != nil && len(b.b) >= 4
+//@   ensures b.b == old(b.b) && b.off == old(b.off) && b.Err == old(b.Err)
+//@   ensures be32(b.b, 0) == uint32(size)
+//@   content-ensures forall(i, 4 <= i && i < len(b.b) ==> b.b[i] == old(b.b[i]))
+//@   modifies *b, bytesof b.b
+
+//@ func (*Buffer).Packet
+//@   property C06
+//@   content
+//@   requires b != nil && len(b.b) >= 4
+//@   ensures err == nil && payloadPassThru == payload && header == b.b && len(header) == old(len(b.b))
+//@   ensures be32(header, 0) == uint32(len(header) - 4 + len(payload))
+//@   content-ensures forall(i, 4 <= i && i < len(header) ==> header[i] == old(b.b[i]))
+//@   modifies *b, bytesof b.b
+// (the length prefix equals the number of bytes that follow it: rest of the header plus the payload)
+
+//@ func NewMarshalBuffer
+//@   property C06
+//@   requires 0 <= size && size <= 0x3fffffffffff
+//@   ensures result != nil && len(result.b) == 9 + size && cap(result.b) == 9 + size && result.off == 0 && result.Err == nil && fresh(result.b)
+//@   modifies nothing
+
+//@ func (*Buffer).Cap
+//@   property C06
+//@   requires b != nil
+//@   ensures result == cap(b.b)
+//@   modifies nothing
+
+'''
+
+
+def sshfx_packet(st, typ, fields):
+    L = ["//@ func (*%s).MarshalPacket" % st, "//@   property C06", "//@   content", "//@   results header, payloadOut, err"]
+    req = ["p != nil"]
+    for k, f in fields:
+        if k == "str":
+            req.append("len(p.%s) <= %s" % (f, MAXSTR))
+    L.append("//@   requires " + " && ".join(req))
+    off = 9
+    offs = []
+
+    def O(extra=0):
+        return " + ".join([str(off + extra)] + offs)
+    posts = ["header[4] == %d" % typ, "be32(header, 5) == reqid"]
+    cont = []
+    for k, f in fields:
+        e = f if f.startswith("uint32(") else "p." + f
+        if k == "u32":
+            posts.append("be32(header, %s) == %s" % (O(), e)); off += 4
+        elif k == "u64":
+            posts.append("be64(header, %s) == %s" % (O(), e)); off += 8
+        elif k == "str":
+            posts.append("be32(header, %s) == uint32(len(p.%s))" % (O(), f))
+            cont.append("forall(j, 0 <= j && j < len(p.%s) ==> header[%s + j] == p.%s[j])" % (f, O(4), f))
+            off += 4; offs.append("len(p.%s)" % f)
+    L.append("//@   ensures err == nil && len(header) == %s && len(payloadOut) == 0" % O())
+    L.append("//@   ensures be32(header, 0) == uint32(len(header) - 4)")
+    for q in posts:
+        L.append("//@   ensures " + q)
+    for c in cont:
+        L.append("//@   content-ensures " + c)
+    L.append("")
+    return L
+
+
 def main():
     out = ["//go:build verif", "", "package sftp", "",
            "// Code generated by /verif/tools/gen_c06_contracts.py; DO NOT EDIT.",
@@ -278,6 +455,10 @@ def main():
                 out += con + [""]
     open("/repo/verif_contracts_c06.go", "w").write("\n".join(out))
     open("/repo/verif_harness_c06.go", "w").write("\n".join(hgo))
+    sx = [SSHFX_HEAD]
+    for st, typ, fields in SSHFX:
+        sx += sshfx_packet(st, typ, fields)
+    open("/repo/internal/encoding/ssh/filexfer/verif_contracts_c06.go", "w").write("\n".join(sx))
     print("wrote", len(PACKETS), "packet layouts")
 
 
